@@ -161,7 +161,20 @@ def run(ctx):
         blob, layout = make_file(rnd, ver)
         fid = 'f%d_v%d' % (i, ver)
         blobs[fid] = blob
-        allcuts = list(range(0, len(blob) + 1))
+        # every offset - except inside segments longer than 512 bytes (large fillers / paddings): there the first and last 64
+        # offsets, the offsets around every 4 KiB boundary and a random sample
+        allcuts = set()
+        for _k, a_, b_ in layout:
+            if b_ - a_ <= 512:
+                allcuts.update(range(a_, b_ + 1))
+            else:
+                allcuts.update(range(a_, a_ + 64))
+                allcuts.update(range(b_ - 64, b_ + 1))
+                for m in range((a_ // 4096 + 1) * 4096, b_, 4096):
+                    allcuts.update((m - 1, m, m + 1))
+                allcuts.update(rnd.randrange(a_, b_) for _ in range(100))
+        allcuts.update((0, len(blob)))
+        allcuts = sorted(c for c in allcuts if 0 <= c <= len(blob))
         for api in APIS:
             cuts = allcuts if (api == 'kevents' or not ctx.quick) else \
                 sorted(set(allcuts[::3] + [b for _, a, b in layout for b in (a, a + 1, b - 1, b)] + [len(blob)]))
